@@ -101,7 +101,31 @@ def run(b, ps, tier, seed):
         violations.append(C.Violation("the model's own schedules disagree: %s" % model_disagree[:3],
                                       {"property": PROP, "kind": "unproven", "no_longer_checks": [{"what": "model schedules agree (validation of the determinism theorem's model)", "detail": str(model_disagree[:5])}]},
                                       found_input=False))
-    cov = R.coverage(d, {"np_runs_compared": np_compared, "deviations_confirmed": deviations, "cut_short_by_timer_then_ok_on_rerun": artefacts,
+    # storms: many processes printing / calling different functions at the same instant, on all cores; implementation runs
+    # only (the expected multiset is the one run of the model), several repetitions per mode
+    import collections as _c
+    from .. import runshapes as RS
+    storm_runs, storm_bad = 0, 0
+    sp = RS.storms(True)
+    mres = S.run_tool(b.model, "run-async-0", [(i, "", t) for i, t in sp], timeout=600)
+    for i, t in sp:
+        mm = R.parse_model_line(mres.get(i, "MISSING"))
+        if mm["tag"] != "RAN":
+            continue
+        want = _c.Counter(mm["prints"])
+        for mode in ("async", "sync", "np"):
+            for rep in range(5 if tier == "quick" else 20):
+                r = R.run_impl_once(b.probe, t, mode, 0, 1500, None, wall=120)
+                storm_runs += 1
+                if _c.Counter(r["prints"]) != want or r["panic"]:
+                    r2 = R.run_impl_once(b.probe, t, mode, 0, 4000, None, wall=180)     # generous timer before it counts
+                    if _c.Counter(r2["prints"]) != want or r2["panic"]:
+                        storm_bad += 1
+                        if len(violations) < 5:
+                            got = _c.Counter(r2["prints"])
+                            violations.append(P.violation(PROP, "printed-multiset", "a storm program prints %s, every schedule of the model prints %s" % (dict(got), dict(want)),
+                                                          i, t, (mode, 0, None, 0), {"prints_count": dict(got), "panic": r2["panic"]}, {"prints_count": dict(want)}))
+    cov = R.coverage(d, {"storm_runs": storm_runs, "storm_runs_deviating": storm_bad, "np_runs_compared": np_compared, "deviations_confirmed": deviations, "cut_short_by_timer_then_ok_on_rerun": artefacts,
                          "model_schedules_per_mode": len(next(iter(d.model.values()))["async"]) if d.model else 0,
                          "hypothesis_check": {"what": "I_compat and I_err of determinism_partial (any two distinct enabled choices independent; errors stable) evaluated by the extracted, proved-sound check on every ordered pair of enabled choices at every configuration visited by the model, modes async+sync",
                                               "model_runs": hyp["runs"], "configurations": hyp["configs"], "pairs_evaluated": hyp["pairs"], "pairs_failing": hyp["bad"],
